@@ -459,8 +459,11 @@ package validate
 // ---------------------------------------------------------------------------
 // Object discipline of validation code (effects validation): which types are pooled validator objects, which other
 // types validation code writes at all, and which otherwise read-only types have scratch copies in a pool.
+// package-level variables initialised at load time and never reassigned
+//@ axiom emptyResult != nil && !redeemed(emptyResult) && cacheMutex != nil && defaultOptsMutex != nil
 //@ validator_types SchemaValidator, itemsValidator, HeaderValidator, ParamValidator, basicCommonValidator, basicSliceValidator, numberValidator, stringValidator, typeValidator, formatValidator, schemaSliceValidator, objectValidator, schemaPropsValidator
-//@ mutable_types Result, schemata, fieldSchemata, itemSchemata
+//@ mutable_types Result
+//@ unframed_types schemata, fieldSchemata, itemSchemata
 //@ pooled_types spec.Schema
 //@ owned_fields Result.Errors, Result.Warnings, Result.fieldSchemata, Result.itemSchemata, Result.cachedFieldSchemata, Result.cachedItemSchemata
 //@ owned_fields schemaPropsValidator.anyOfValidators, schemaPropsValidator.allOfValidators, schemaPropsValidator.oneOfValidators, objectValidator.splitPath
@@ -502,10 +505,6 @@ package validate
 //@   modifies *
 //@   ensures[C06] result != nil
 
-//@ func (*typeValidator).Validate
-//@   requires[C06] isJSON(data)
-//@   modifies *
-//@   ensures[C06] result != nil
 //@ func (*typeValidator).schemaInfoForType
 //@   requires[C06] isJSON(data) && data != nil
 //@   pure
@@ -514,22 +513,10 @@ package validate
 //@   requires[C06] isJSON(data) && data != nil
 //@   modifies *
 //@   ensures[C06] result != nil
-//@ func (*stringValidator).Validate
-//@   modifies *
-//@ func (*formatValidator).Validate
-//@   requires[C06] typeis(val, "string")
-//@   modifies *
-//@   ensures[C06] result != nil
-//@ func (*numberValidator).Validate
-//@   requires[C06] knumeric(val)
-//@   modifies *
-//@   ensures[C06] result != nil
 //@ func (*schemaSliceValidator).Validate
 //@   requires[C06] isJSON(data) && (data == nil || kind(data) == 23)
 //@   modifies *
 //@   ensures[C06] result != nil
-//@ func (*basicCommonValidator).Validate
-//@   modifies *
 //@ func (*objectValidator).Validate
 //@   requires[C06] isJSON(data)
 //@   modifies *
@@ -657,3 +644,42 @@ package validate
 //@   pure
 //@   ensures[C14] (result != nil) == (!caseSensitive && kind(value) == 24)
 //@   ensures[C14] implies(result != nil && isStr(value), *result == strof(value))
+
+// ---------------------------------------------------------------------------
+// C04 / C11 / C05: pool discipline of the validators. A validator that recycles redeems itself exactly once
+// (also when a caller-supplied format checker panics); results handed to the caller are live objects taken
+// from the pool (or fresh), never aliasing anything the caller already holds.
+//@ pred okResult(res *Result) = res == emptyResult || (res != nil && !redeemed(res) && fromPool(res) && wfRes(res))
+
+//@ func (*errorHelper).sErr
+//@   effects validation
+//@   requires[C04,C06,C17] err != nil
+//@   ensures[C04,C17] result != nil && result != emptyResult && !redeemed(result) && fromPool(result) && wfRes(result)
+//@   ensures[C04,C17] len(result.Errors) == 1 && result.Errors[0] == err && len(result.Warnings) == 0 && result.MatchCount == 0
+//@   ensures[C04] result.wantsRedeemOnMerge == recycle
+
+//@ func (*typeValidator).Validate
+//@   effects validation
+//@   requires[C06] isJSON(data)
+//@   ensures[C04,C11] redeemed(t) == old(t.Options.recycleValidators)
+//@   ensures[C04,C06] result != nil && okResult(result)
+//@ func (*stringValidator).Validate
+//@   effects validation
+//@   ensures[C04,C11] redeemed(s) == old(s.Options.recycleValidators)
+//@   ensures[C04] result == nil || okResult(result)
+//@ func (*formatValidator).Validate
+//@   effects validation
+//@   maypanic
+//@   requires[C06] typeis(val, "string")
+//@   ensures[C04,C11] redeemed(f) == old(f.Options.recycleValidators)
+//@   ensures[C04,C06] result != nil && okResult(result)
+//@   on_panic ensures[C11] redeemed(f) == old(f.Options.recycleValidators)
+//@ func (*numberValidator).Validate
+//@   effects validation
+//@   requires[C06] knumeric(val)
+//@   ensures[C04,C11] redeemed(n) == old(n.Options.recycleValidators)
+//@   ensures[C04,C06] result != nil && okResult(result)
+//@ func (*basicCommonValidator).Validate
+//@   effects validation
+//@   ensures[C04,C11] redeemed(b) == old(b.Options.recycleValidators)
+//@   ensures[C04] res == nil || okResult(res)
